@@ -1,5 +1,5 @@
 use clap::{Arg, Command};
-use std::{fs::File, path::Path};
+use std::path::Path;
 use zeep_lib::{
     reader::{WriteXml, XmlReader},
     utils::read_input_file_and_xsd_files_at_path,
@@ -35,7 +35,9 @@ fn main() {
 
     let output_file = to_file_name.map_or_else(|| from_file_path.with_extension("rs"), |f| Path::new(f).to_path_buf());
 
-    let mut file = File::create(output_file).expect("can not create file");
+    // generate into memory first: when anything fails, an existing output file is left untouched
     let document = XmlReader::read_xml(&files).expect("can not read xml");
-    document.write_xml(&mut file).expect("can not write xml");
+    let mut buffer = Vec::new();
+    document.write_xml(&mut buffer).expect("can not write xml");
+    std::fs::write(output_file, buffer).expect("can not write file");
 }
